@@ -43,6 +43,29 @@ struct Conv<std::string> {
     static int back(const std::string& s) { return s.empty() ? 0 : atoi(s.c_str() + s.rfind('_') + 1); }
 };
 
+// payload whose copy / move construction may fail while a value is being stored (fault enumeration)
+bool g_blob_armed[8];
+struct Blob {
+    int v = 0;
+    Blob() = default;
+    explicit Blob(int x): v(x) {}
+    Blob(const Blob& o): v(o.v)
+    {
+        if (g_blob_armed[self()]) may_throw(hx::SITE_COPY);
+    }
+    Blob(Blob&& o) noexcept(false): v(o.v)
+    {
+        if (g_blob_armed[self()]) may_throw(hx::SITE_COPY);
+    }
+    Blob& operator=(const Blob&) = default;
+    Blob& operator=(Blob&&) = default;
+};
+template<>
+struct Conv<Blob> {
+    static Blob make(int v) { return Blob(v); }
+    static int back(const Blob& b) { return b.v; }
+};
+
 struct Ref {
     uint8_t st[NK] = {0, 0, 0};  // 0 unknown, 1 pending, 2 completed
     int8_t fval[NK] = {-1, -1, -1};  // value the promise was fulfilled with
@@ -83,14 +106,14 @@ void ref_destroy(Ref& r)
 }
 
 struct Prog {
-    bool str;  // X = std::string
+    int str;  // payload: 0 = int, 1 = std::string, 2 = Blob (copy / move may throw while a value is stored)
     uint8_t pre;  // bitmask of keys whose future main requests before the threads start
     bool destroy_early;  // destroy the container while consumers still wait
     std::vector<std::vector<Op>> threads;
 };
 std::string text(const Prog& p)
 {
-    std::string s = std::string("DelayedObjects<") + (p.str ? "string" : "int") + ">";
+    std::string s = std::string("DelayedObjects<") + (p.str == 2 ? "Blob(throwing copy)" : p.str ? "string" : "int") + ">";
     if (p.pre) {
         s += " futures requested up front:";
         for (int k = 0; k < NK; k++)
@@ -109,9 +132,12 @@ struct HistE {
     Op op;
     int res;
     uint64_t inv, ret;
+    bool failed;  // the call threw (payload copy failed): it must have had no effect
 };
 HistE g_hist[12];
 int g_nhist;
+int g_failed[12];
+int g_nfailed;
 int g_fut_val[NK];  // observed future values (-1 none)
 
 bool lin_search(int mask, const Ref& st, int n)
@@ -130,8 +156,10 @@ bool lin_search(int mask, const Ref& st, int n)
             if (j != i && !(mask & (1 << j)) && g_hist[j].ret < g_hist[i].inv) ready = false;
         if (!ready) continue;
         Ref ns = st;
-        int e = ref_apply(ns, g_hist[i].op);
-        if (e != g_hist[i].res) continue;
+        if (!g_hist[i].failed) {
+            int e = ref_apply(ns, g_hist[i].op);
+            if (e != g_hist[i].res) continue;
+        }
         if (lin_search(mask | (1 << i), ns, n)) return true;
     }
     return false;
@@ -159,14 +187,18 @@ int run_op(Box<X>* b, const Op& o)
                 return 0;
             case SET_COPY: {
                 const X v = Conv<X>::make(o.val);
+                g_blob_armed[self()] = true;
                 if (o.key < 2) d->setDelayedValue((int)o.key, v);
                 else d->setDelayedValue(sx, v);
+                g_blob_armed[self()] = false;
                 return 0;
             }
             case SET_MOVE: {
                 X v = Conv<X>::make(o.val);
+                g_blob_armed[self()] = true;
                 if (o.key < 2) d->setDelayedValue((int)o.key, std::move(v));
                 else d->setDelayedValue(sx, std::move(v));
+                g_blob_armed[self()] = false;
                 return 0;
             }
             case FULFILL: d->fulfillAllPromises(Conv<X>::make(o.val)); return 0;
@@ -182,6 +214,12 @@ int run_op(Box<X>* b, const Op& o)
         std::string t = optext(o);
         fail("escaped-exception", "%s threw std::future_error: %s", t.c_str(), e.what());
     }
+    catch (const Injected&) {
+        // storing the value failed (the payload's copy threw): the call must have had no effect,
+        // the key stays pending and is completed later by a retry, fulfil-all or destruction
+        g_blob_armed[self()] = false;
+        return -7;
+    }
     return 0;
 }
 
@@ -189,6 +227,8 @@ template<class X>
 void body_t(const Prog& p)
 {
     g_nhist = 0;
+    g_nfailed = 0;
+    memset(g_blob_armed, 0, sizeof g_blob_armed);
     for (int k = 0; k < NK; k++) g_fut_val[k] = -1;
     size_t base_blocks = live_blocks();
     auto* b = new Box<X>();
@@ -207,9 +247,15 @@ void body_t(const Prog& p)
                 Ref ref;
                 for (auto& o : ops) {
                     if (solo) {
+                        Ref before = ref;
                         int e = ref_apply(ref, o);
                         int g = run_op(b, o);
                         std::string t = optext(o);
+                        if (g == -7) {
+                            ref = before;  // failed: no effect
+                            g_failed[g_nfailed++] = (int)(&o - &ops[0]);
+                            e = g;
+                        }
                         MC_CHECK(e == g, "result-mismatch", "%s returned %d, reference says %d", t.c_str(), g, e);
                         // whole query surface
                         for (int k = 0; k < NK; k++) {
@@ -225,18 +271,26 @@ void body_t(const Prog& p)
                     } else {
                         int hi = g_nhist++;
                         g_hist[hi].op = o;
+                        g_hist[hi].failed = false;
                         g_hist[hi].inv = stamp();
                         g_hist[hi].ret = ~uint64_t(0);
                         g_hist[hi].res = run_op(b, o);
                         g_hist[hi].ret = stamp();
+                        g_hist[hi].failed = (g_hist[hi].res == -7);
                         observe((uint64_t)g_hist[hi].res + 3 * o.k);
                     }
                 }
                 if (solo) {
                     // hand the reference to the final check through the history log
-                    for (auto& o : ops) {
+                    for (size_t oi = 0; oi < ops.size(); oi++) {
+                        bool failed = false;
+                        for (int k = 0; k < g_nfailed; k++)
+                            if (g_failed[k] == (int)oi) failed = true;
+                        if (failed) continue;
+                        const Op& o = ops[oi];
                         int hi = g_nhist++;
                         g_hist[hi].op = o;
+                        g_hist[hi].failed = false;
                         g_hist[hi].inv = g_hist[hi].ret = stamp();
                         g_hist[hi].res = -100;  // marker: recompute
                     }
@@ -296,7 +350,8 @@ void body_t(const Prog& p)
 
 void body(const Prog& p)
 {
-    if (p.str) body_t<std::string>(p);
+    if (p.str == 2) body_t<Blob>(p);
+    else if (p.str) body_t<std::string>(p);
     else body_t<int>(p);
 }
 
@@ -308,6 +363,11 @@ void make_items(const Options& o, std::vector<Item>& items)
         it.name = text(p);
         it.body = [p] { body(p); };
         it.bounds = hx::tier_bounds(o, Pq, Pt);
+        if (p.str == 2) {
+            // every copy / move of the payload inside a setDelayedValue call may throw
+            it.enumerate_faults = true;
+            it.fault_mask = 1u << hx::SITE_COPY;
+        }
         items.push_back(it);
     };
     // ---- sequential part
@@ -329,7 +389,14 @@ void make_items(const Options& o, std::vector<Item>& items)
                     if (++req[al[i].key] > 1) ok = false;  // each key is requested once
                 }
             if (!ok || !any) continue;
-            for (int str = 0; str < 2; str++) {
+            for (int str = 0; str < 3; str++) {
+                if (str == 2) {
+                    // throwing payload: sequences with a set, up to depth 4
+                    bool has_set = false;
+                    for (int i : s)
+                        if (al[i].k == SET_COPY || al[i].k == SET_MOVE) has_set = true;
+                    if (!has_set || s.size() > 4) continue;
+                }
                 Prog p;
                 p.str = str;
                 p.pre = 0;
@@ -360,6 +427,20 @@ void make_items(const Options& o, std::vector<Item>& items)
             }
         return req1 <= 1 && mut >= 1;
     };
+    // throwing payload under concurrency: a failed set followed / accompanied by retry, fulfil-all, queries
+    for (auto& th : std::vector<std::vector<std::vector<Op>>>{
+             {{Op{SET_COPY, 0, 5}, Op{SET_COPY, 0, 6}}, {Op{ISREC, 0, 0}}},
+             {{Op{SET_MOVE, 0, 5}}, {Op{FULFILL, 0, 7}}},
+             {{Op{SET_COPY, 0, 5}}, {Op{SET_MOVE, 0, 6}}},
+             {{Op{SET_COPY, 0, 5}, Op{FINISH, 0, 0}}, {Op{ISCOMP, 0, 0}}},
+             {{Op{SET_COPY, 2, 5}}, {Op{SET_COPY, 0, 6}}, {Op{FULFILL, 0, 7}}}}) {
+        Prog p;
+        p.str = 2;
+        p.pre = 0b101;
+        p.destroy_early = true;
+        p.threads = th;
+        add(p, 2, 3);
+    }
     for (int str = 0; str < 2; str++) {
         hx::multisets((int)seq2.size(), 2, [&](const std::vector<int>& idx) {
             Prog p;
